@@ -854,6 +854,17 @@ func (g *srvGen) next() ([]byte, []arpResp, *simClient, byte) {
 			m = cl.msg(1, flags, 0)
 			m.chaddr = c.selfMAC
 		}
+		if g.r2 != nil && cl.leased != 0 && g.r2.Intn(2) == 0 {
+			// a well-formed RELEASE (unicast from the leased address, ciaddr set, the server named) or DECLINE (broadcast, the
+			// address as requested address) of a client that holds a lease: this server implements neither - an acknowledged
+			// lease runs for the time it advertised, whatever the client says afterwards
+			if g.r2.Intn(3) > 0 {
+				m = cl.msg(7, 0, cl.leased, wopt{54, u32b(c.selfIP)})
+				src, dst = cl.leased, c.selfIP
+			} else {
+				m = cl.msg(4, 0, 0, wopt{50, u32b(cl.leased)}, wopt{54, u32b(c.selfIP)})
+			}
+		}
 	default: // junk
 		kind = 9
 		b := randBytes(r, 20+r.Intn(300))
@@ -1045,6 +1056,24 @@ func runServerHistory(t *testing.T, c *caseWriter, tags string, kind string, see
 				s.advance(g.gap())
 				obs := s.round(pkt, lastArp)
 				g.observe(lastCl, obs.outs)
+			}
+		}
+		if kind == "variant" && lastCl != nil && lastCl.leased != 0 && len(g.clients) >= 2 {
+			// the client answered last gives its address back (a well-formed RELEASE) and somebody else asks for that very address at
+			// once: this server knows no RELEASE, the lease it acknowledged runs on
+			s.advance(g.gap())
+			rel := lastCl.msg(7, 0, lastCl.leased, wopt{54, u32b(g.cfg.selfIP)})
+			obs := s.round(udpip(lastCl.leased, g.cfg.selfIP, 68, 67, 17, 64, rel.bytes()), nil)
+			g.observe(lastCl, obs.outs)
+			for _, other := range g.clients {
+				if other != lastCl && !bytes.Equal(other.mac, lastCl.mac) {
+					s.advance(50 * time.Millisecond)
+					other.xid++
+					d := other.msg(1, 0, 0, wopt{50, u32b(lastCl.leased)})
+					obs := s.round(udpip(0, 0xffffffff, 68, 67, 17, 64, d.bytes()), nil)
+					g.observe(other, obs.outs)
+					break
+				}
 			}
 		}
 		var macs [][]byte
